@@ -310,10 +310,11 @@ def monitor(s, t):
                     return "event %d %s: a miss called the inner service %d times" % (j, e, started)
                 if not (evt & 2):
                     return "event %d %s: inner call without a Miss event" % (j, e)
-                if ent is not None and not (ttl >= 0 and now - ent[1] > ttl):
-                    return "event %d %s: key present and fresh in the reference cache but the lookup missed" % (j, e)
+                # A miss although the reference cache holds a fresh entry is NOT a violation of C10 (the property
+                # constrains what a hit may return, not when a lookup must hit); it is a deviation from the
+                # model, reported by the correspondence comparison. The reference simply forgets the entry.
                 if ent is not None:
-                    del ref[st][k]          # expired: removed on read
+                    del ref[st][k]          # expired (or dropped early by the implementation): gone after the read
                 state[a] = ("miss", st, k)
         elif op == 1 and valid:
             stt = state.get(a)
@@ -375,7 +376,11 @@ def monitor(s, t):
         for st in (0, 1):
             want = sum(1 << k for k in ref[st] if k < 8)
             if pres[st] != want:
-                return "event %d %s: store %d holds keys mask %d, reference cache %d" % (j, e, st, pres[st], want)
+                # Entries the implementation no longer holds are forgotten by the reference as well (losing an
+                # entry early is not a C10 violation; the model comparison reports it). Entries it holds beyond the
+                # reference can only follow a wrong eviction, which the victim clauses above have already reported.
+                for k in [k for k in ref[st] if k < 8 and not (pres[st] >> k) & 1]:
+                    del ref[st][k]
             if ms >= 1 and bin(pres[st]).count("1") > ms:
                 return "event %d %s: store %d holds %d entries, max_size %d" % (j, e, st, bin(pres[st]).count("1"), ms)
         pend = sum(1 for x in state.values() if x != "done" and x[0] == "miss")
